@@ -58,6 +58,19 @@ let dec (s : string) : n list =
   let n = (String.length s - 1) / 2 in
   List.init n (fun i -> n_of_int (hexv s.[1 + 2*i] * 16 + hexv s.[2 + 2*i]))
 let dec_opt (s : string) : n list option = if s = "-" then None else Some (dec s)
+(* a configuration name "@/x/y": the harness puts the scratch root (without its leading '/') where the '@' is, so that
+   the directory "" + "/" + name is below the scratch root; in the model's virtual tree the name is just "x/y" *)
+(* a path component "@" in a tree path stands for the scratch root (see name_opt): absent in the virtual tree *)
+let rec drop_at (l : n list) : n list =
+  match l with
+  | a :: b :: c :: rest when int_of_n a = 47 && int_of_n b = 64 && int_of_n c = 47 -> drop_at (c :: rest)
+  | x :: rest -> x :: drop_at rest
+  | [] -> []
+let decp (s : string) : n list = drop_at (dec s)
+let name_opt (s : string) : n list option =
+  match dec_opt s with
+  | Some (a :: b :: rest) when int_of_n a = 64 && int_of_n b = 47 -> Some rest
+  | x -> x
 let enc_list l = String.concat "," (List.map enc l)
 
 let kind_of = function
@@ -111,6 +124,8 @@ let parse_cmd (toks : string list) : cmd =
   | ["newempty"; a] -> CNewEmpty (o a)
   | ["parse"; a; path; content; dl; cm; py; jn] ->
       CParse (o a, dec path, dec content, dec dl, dec cm, py = "1", jn = "1")
+  | ["parsepipe"; a; path; content; dl; cm] ->      (* the same bytes delivered through a named pipe: the same result *)
+      CParse (o a, dec path, dec content, dec dl, dec cm, false, false)
   | ["set"; a; kd; g; k; text; zv] ->
       CSet (o a, kind_of kd, dec_opt g, dec_opt k, dec_opt text, z_of_string zv)
   | ["get"; a; kd; g; k; d] -> CGet (o a, kind_of kd, dec_opt g, dec_opt k, def_of d)
@@ -185,9 +200,9 @@ let parse_wcmd (toks : string list) : wcmd =
   let o s = nat_of_int (i s) in
   let num s = n_of_int (i s) in
   match toks with
-  | ["fsfile"; p; content; u; g] -> WFs (dec p, NFile (dec content, num u, num g))
-  | ["fslink"; p; target; u; g] -> WFs (dec p, NLink (dec target, num u, num g))
-  | ["fsdir"; p; u; g] -> WFs (dec p, NDir (num u, num g))
+  | ["fsfile"; p; content; u; g] -> WFs (decp p, NFile (dec content, num u, num g))
+  | ["fslink"; p; target; u; g] -> WFs (decp p, NLink (dec target, num u, num g))
+  | ["fsdir"; p; u; g] -> WFs (decp p, NDir (num u, num g))
   | ["sec"; ow; gr; nl] ->
       WSec { sec_owner = (if ow = "-" then None else Some (num ow));
              sec_group = (if gr = "-" then None else Some (num gr)); sec_nolinks = (nl = "1"); sec_perms = None }
@@ -199,9 +214,9 @@ let parse_wcmd (toks : string list) : wcmd =
   | ["cb"; "reject"; l] -> WCallback (CbReject (dec_olist l))
   | ["newopts"; a; opts] -> WNewOpts (o a, dec_opt opts)
   | ["readfile"; a; p; dl; cm] -> WReadFile (o a, dec p, dec dl, dec cm)
-  | ["readdirs"; a; d1; d2; nm; sf; dl; cm] -> WReadDirs (o a, dec_opt d1, dec_opt d2, dec_opt nm, dec_opt sf, dec dl, dec cm)
-  | ["readconfig"; a; pr; us; nm; sf; dl; cm] -> WReadConfig (o a, dec_opt pr, dec_opt us, dec_opt nm, dec_opt sf, dec dl, dec cm)
-  | ["history"; d1; d2; nm; sf; dl; cm] -> WHistory (dec_opt d1, dec_opt d2, dec_opt nm, dec_opt sf, dec dl, dec cm)
+  | ["readdirs"; a; d1; d2; nm; sf; dl; cm] -> WReadDirs (o a, dec_opt d1, dec_opt d2, name_opt nm, dec_opt sf, dec dl, dec cm)
+  | ["readconfig"; a; pr; us; nm; sf; dl; cm] -> WReadConfig (o a, dec_opt pr, dec_opt us, name_opt nm, dec_opt sf, dec dl, dec cm)
+  | ["history"; d1; d2; nm; sf; dl; cm] -> WHistory (dec_opt d1, dec_opt d2, name_opt nm, dec_opt sf, dec dl, dec cm)
   | ["writeto"; a; d; f] -> WWriteTo (o a, dec d, dec f)
   | ["errloc"] -> WErrLoc
   | _ -> WBase (parse_cmd toks)
@@ -236,7 +251,7 @@ let () =
            skipped when a later one has the same name; the first is taken as it is, as the library does): the result,
            then every member of the history as it is AFTER these merges *)
         | ["histmerge"; d1; d2; nm; sf; dl; cm] ->
-            let h = read_dirs_history (!w).w_tree (!w).w_g (cb_of (!w).w_cb) (dec_opt d1) (dec_opt d2) (dec_opt nm) (dec_opt sf) (dec dl) (dec cm) in
+            let h = read_dirs_history (!w).w_tree (!w).w_g (cb_of (!w).w_cb) (dec_opt d1) (dec_opt d2) (name_opt nm) (dec_opt sf) (dec dl) (dec cm) in
             w := { !w with w_g = h.ho_g };
             (match h.ho_res with
              | Inl e -> print_endline (rc e)
